@@ -100,7 +100,9 @@ SetToSeq(S) == IF S = {} THEN <<>> ELSE LET x == CHOOSE y \in S : TRUE IN <<x>> 
 RmInit == cfg \in RmCfgs /\ mst = 0 /\ hist = <<>>
 RmEmit == Family = "rm" => EmitProg(SetToSeq(RmOps))
 \* a correct implementation - min(backoff x factor, max_delay), no jitter - satisfies D1/D2 for every attempt
-IdealDelay(a, c) == IF a = 0 THEN 0 ELSE RMin(Scaled(cfg, a, CondMult(c)), cfg.max_ms)
+CondFactor(c) == CASE c = "Excellent" -> <<1, 2>> [] c = "Good" -> <<4, 5>> [] c = "Fair" -> <<1, 1>>
+                   [] c = "Poor" -> <<3, 2>> [] c = "VeryPoor" -> <<2, 1>>
+IdealDelay(a, c) == IF a = 0 THEN 0 ELSE RMin(ScaledLo(cfg, a, CondFactor(c)), cfg.max_ms)
 IdealDelayConforms ==
   Family = "rm" => \A a \in Attempts, c \in Conds :
     JudgeRm(cfg, 0, [op |-> "delay", a |-> a, cond |-> c, res |-> [kind |-> "Ok", ms |-> IdealDelay(a, c)]]).ok
@@ -145,7 +147,9 @@ Outs == {[kind |-> "Ok", code |-> 0], [kind |-> "Timeout", code |-> 0], [kind |-
          [kind |-> "HttpStatus", code |-> 503], [kind |-> "HttpStatus", code |-> 404], [kind |-> "HttpStatus", code |-> 429],
          [kind |-> "InvalidRange", code |-> 0], [kind |-> "ServerUnavailable", code |-> 0]}
 Scripts == UNION {[1..k -> Outs] : k \in 0..N}
-Seconds == {<<[kind |-> "Ok", code |-> 0]>>, <<[kind |-> "HttpStatus", code |-> 503], [kind |-> "Ok", code |-> 0]>>}
+\* the second call of a program (health persists between calls)
+Seconds == IF Tier = "quick" THEN {<<[kind |-> "HttpStatus", code |-> 503], [kind |-> "Ok", code |-> 0]>>}
+           ELSE {<<[kind |-> "Ok", code |-> 0]>>, <<[kind |-> "HttpStatus", code |-> 503], [kind |-> "Ok", code |-> 0]>>}
 BeyondOut == [kind |-> "Beyond", code |-> 0]
 \* mst = [scripts (one per exec), e (index of the running exec), x (RecX), calls, phase, res, t]
 RecInit == /\ cfg \in RecCfgs
@@ -161,7 +165,7 @@ RecAttempt ==
        LET i == Len(mst.calls) + 1
            o == OutAt(mst.scripts[mst.e], i)
            t == IF i = 1 THEN 0
-                ELSE mst.calls[i - 1].t + OutDur(cfg, mst.calls[i - 1].o) + RMin(Scaled(cfg, i - 1, <<1, 1>>), cfg.max_ms)
+                ELSE mst.calls[i - 1].t + OutDur(cfg, mst.calls[i - 1].o) + RMin(ScaledLo(cfg, i - 1, <<1, 1>>), cfg.max_ms)
            c == [i |-> i, t |-> t, to |-> s, range_ok |-> TRUE, o |-> o, downBefore |-> mst.x.down]
            done == IsOkOut(o) \/ ~Retryable(cfg, o)
        IN mst' = [mst EXCEPT !.x = Booked(mst.x, s, o), !.calls = Append(@, c),
@@ -219,7 +223,7 @@ PoolOps(s) ==
 \* the result a correct pool gives (no real time passes in these programs)
 PoolRes(s, e) == IF e.op = "get" THEN (IF GetMayOk(s, PoolCfg, e.h) THEN [kind |-> "Ok", g |-> s.nextg + 1] ELSE [kind |-> "Err"])
                  ELSE [kind |-> "Ok"]
-PoolObsOf(s) == [srv |-> [h \in DOMAIN s.reg |-> <<s.reg[h], s.cnt[h][1], s.cnt[h][2], s.cnt[h][3]>>]]
+PoolObsOf(s) == [srv |-> [h \in DOMAIN s.reg |-> <<s.reg[h], s.cnt[h][1], s.cnt[h][2], s.cnt[h][3]>>], m |-> s.m]
 PoolInit == cfg = PoolCfg /\ mst = PoolSt0(PoolCfg) /\ hist = <<>>
 PoolStep ==
   /\ Len(hist) < N
@@ -272,13 +276,15 @@ CdnEmit == Family = "cdn" => EmitProg(<<[op |-> "get", range |-> mst]>>)
 \* range), the answer is the wanted bytes, an error means nobody could answer with the wanted bytes for certain
 CdnWalkShape ==
   Family = "cdn" =>
-    LET chain == CdnChain(cfg) IN
-    /\ \A i \in 1..(Len(chain) - 1) : chain[i].prio <= chain[i + 1].prio
-    /\ \A w \in {x \in CdnWalk(chain, mst, 1) : x.dev = ""} :
-         /\ \A j \in 1..(w.n - 1) : CdnFails(chain[j].beh) \/ (chain[j].beh = "ok200" /\ mst # <<>>)
-         /\ w.ok => ~CdnFails(chain[w.n].beh) /\ w.body = Wanted(mst)
-         /\ ~w.ok => \A j \in 1..Len(chain) : chain[j].beh # "ok206" /\ (chain[j].beh = "ok200" => mst # <<>>)
-    /\ \E w \in CdnWalk(chain, mst, 1) : w.dev = ""
+    /\ CdnChains(cfg) # {}
+    /\ \A chain \in CdnChains(cfg) :
+         /\ \A i \in 1..(Len(chain) - 1) : chain[i].prio <= chain[i + 1].prio
+         /\ {chain[i].h : i \in 1..Len(chain)} = {cfg.servers[i].h : i \in 1..Len(cfg.servers)}
+         /\ \A w \in {x \in CdnWalk(chain, mst, 1) : x.dev = ""} :
+              /\ \A j \in 1..(w.n - 1) : CdnFails(chain[j].beh) \/ (chain[j].beh = "ok200" /\ mst # <<>>)
+              /\ w.ok => ~CdnFails(chain[w.n].beh) /\ w.body = Wanted(mst)
+              /\ ~w.ok => \A j \in 1..Len(chain) : chain[j].beh # "ok206" /\ (chain[j].beh = "ok200" => mst # <<>>)
+         /\ \E w \in CdnWalk(chain, mst, 1) : w.dev = ""
 \* the wanted bytes are what RangePlan calls the body of the range (the resource is "byte x = x")
 CdnWantedIsBody == Family = "cdn" => (mst # <<>> => Wanted(mst) = Body(mst))
 
